@@ -411,6 +411,24 @@ def receive_anchor(model: Model):
                     if g is not None and g.cls is None and not isinstance(g.node, ast.Lambda) and builds_reader(g, depth + 1):
                         return True
         return False
+    for _hop in range(2):
+        if builds_reader(fi):
+            break
+        # a template method: receive is `try: return self._receive(data) except ...: <attach the notification>; raise`
+        body = [b for b in fi.node.body if not (isinstance(b, ast.Expr) and isinstance(b.value, ast.Constant))]
+        st = body[0] if len(body) == 1 else None
+        inner = st.body[0] if isinstance(st, ast.Try) and len(st.body) == 1 and not st.orelse else st
+        nxt = None
+        if isinstance(inner, ast.Return) and isinstance(inner.value, ast.Call) and isinstance(inner.value.func, ast.Attribute) and \
+                isinstance(inner.value.func.value, ast.Name) and inner.value.func.value.id == "self" and not inner.value.keywords and \
+                [norm(a) for a in inner.value.args] == fi.params()[1:]:
+            nxt = model.find_method("sansldap._session.LDAPSession", inner.value.func.attr)
+            # the decode method must be the base class's own for every session class (no override changes what is analysed)
+            if nxt is not None and any(model.find_method(k, inner.value.func.attr) is not nxt for k in model.subclasses("sansldap._session.LDAPSession")):
+                nxt = None
+        if nxt is None or isinstance(nxt.node, ast.Lambda):
+            break
+        fi = nxt
     if not builds_reader(fi):
         raise AnalysisError("LDAPSession.receive does not set up the reader itself (it delegates its whole body to another method): the rules anchored on receive do not apply")
     return fi
